@@ -244,14 +244,23 @@ def command_level(ctx):
     # end to end with real drop-in files (beside the unit), a sample
     sample = [w for w in work if w[3]][: ctx.volume(60, 600)]
     with e2e.Box() as box:
-        files = {}
+        files, links = {}, []
         for j, (key, hist, main, drops, ref) in enumerate(sample):
             typ = unit_of(key)[0]
             files["units/h%d.%s" % (j, typ)] = main
             for d, txt in enumerate(drops):
-                files["units/h%d.%s.d/%02d-x.conf" % (j, typ, d)] = txt
+                if (j + d) % 3 == 0:
+                    # the drop-in is a symbolic link to a file kept elsewhere (a common way to share one drop-in between units)
+                    files["shared/h%d-%02d.conf" % (j, d)] = txt
+                    links.append(("units/h%d.%s.d/%02d-x.conf" % (j, typ, d), "../../shared/h%d-%02d.conf" % (j, d)))
+                else:
+                    files["units/h%d.%s.d/%02d-x.conf" % (j, typ, d)] = txt
             files["units/r%d.%s" % (j, typ)] = ref
         e2e.make_tree(box.root, files)
+        for lp, target in links:
+            os.makedirs(os.path.dirname(box.path(lp)), exist_ok=True)
+            os.symlink(target, box.path(lp))
+        ctx.count("e2e_symlinked_dropins", len(links))
         rc, out, err = e2e.run_quadlet([box.path("units")], box.path("out"), dry_run=True)
         svcs = e2e.parse_dry_run(out)
         for j, (key, hist, main, drops, ref) in enumerate(sample):
@@ -342,7 +351,7 @@ def names_level(ctx):
                                  "what": "naming history %s of [%s] %s and its effective value differ in names or in the referring unit: %s" % (hist, typ, key, diff),
                                  "class": None})
     # end to end: the history spread over the main file and real drop-in files
-    sample = work[: ctx.volume(60, 600)]
+    sample = work[: ctx.volume(24, 600)]
     with e2e.Box() as box:
         for j, (typ, key, hist, main, drops, ref, referrer) in enumerate(sample):
             views = []
